@@ -12,7 +12,8 @@
    is given as an object array of arrays (modelled and run by the correspondence -- VObjArray -- but
    the statements do not speak about such requests).  Explicit arrays of every other dtype are inside:
    a float16 array is honoured as float32, a bytes array is rejected (item_ok). *)
-From Geff Require Import Base Dtype GraphVal GraphValLemmas Vlen Mock MockLemmas.
+From Geff Require Import Base Dtype GraphVal GraphValLemmas Vlen Mock MockLemmas MockTree MockTreeLemmas.
+From Geff Require Tree Validate.
 Open Scope Z_scope.
 Open Scope list_scope.
 
@@ -87,6 +88,22 @@ Theorem C20_mock : forall p st g, req_wf p -> 0 <= p_n p -> mock p = Ok (st, g) 
   graph_valid (mem_view g) = Ok tt.
 Proof. exact mock_honours. Qed.
 Print Assumptions C20_mock.
+
+(* ---- the store is a structurally valid geff, stated against the INDEPENDENT declarative predicate
+   Validate.conformant (the reading of docs/specification.md that C04_sound / C04_complete tie to the
+   validator model of C04): store_tree st (MockTree.v) is the zarr hierarchy of the store -- groups, arrays
+   with dtype and shape, the metadata attribute -- and the correspondence compares it member by member
+   with the real store (o_layout). *)
+Theorem C20_mock_conformant : forall p st g, req_wf p -> 0 <= p_n p -> mock p = Ok (st, g) ->
+  Validate.conformant (store_tree st).
+Proof. exact mock_conformant. Qed.
+Print Assumptions C20_mock_conformant.
+
+(* hence C04's model of validate_structure accepts it, whether the store is designated by path or as an object *)
+Theorem C20_mock_validates : forall p st g k, req_wf p -> 0 <= p_n p -> mock p = Ok (st, g) ->
+  Validate.validate_structure k (Some (store_tree st)) = Ok tt.
+Proof. exact mock_validates. Qed.
+Print Assumptions C20_mock_validates.
 
 (* `honours` is the conjunction spelled out in C20_dummy *)
 Theorem C20_honours_unfold : forall p v, honours p v <->
@@ -180,8 +197,40 @@ Definition ex_params (directed : bool) (n e : Z) (vl ms : bool) : params :=
      p_eep := EDict [(KStr "w", VDtype "float64")];
      p_t := true; p_z := false; p_y := true; p_x := true; p_varlen := vl; p_missing := ms |}.
 
+(* the same request with one more extra node property *)
+Definition ex_with (name : string) (v : pval) (vl ms : bool) : params :=
+  let q := ex_params false 3 3 vl ms in
+  {| p_id := p_id q; p_pos := p_pos q; p_time := p_time q; p_directed := false; p_n := 3; p_e := 3;
+     p_enp := EDict [(KStr "label", VDtype "str"); (KStr name, v)]; p_eep := p_eep q;
+     p_t := true; p_z := false; p_y := true; p_x := true; p_varlen := vl; p_missing := ms |}.
+
 Example C20_nonvacuous :
-  names_ok (ex_params false 3 3 true true) /\
+  (req_wf (ex_params false 3 3 true true) /\ names_ok (ex_params false 3 3 true true)) /\
+  (* the store of that request passes C04's validator model on its tree *)
+  (match mock (ex_params false 3 3 true true) with
+   | Ok (st, _) => Validate.validate_structure Validate.KObj (Some (store_tree st)) = Ok tt /\
+                   In ("nodes/props/var_length/data"%string, Some (DU64, [9%nat])) (store_listing st)
+   | Err _ => False
+   end) /\
+  (* a clash with a generated name is rejected (accepted before fix 30103ad), a reserved name that does not clash is not *)
+  dummy (ex_with "t" (VDtype "int8") false false) = Err ValueError /\
+  dummy (ex_with "var_length" (VDtype "int") true false) = Err ValueError /\
+  dummy (ex_with "sparse_prop" (VArray DI8 3 []) false true) = Err ValueError /\
+  map (fun x => map pv_name (gv_nprops (mem_view x)))
+      (match dummy (ex_with "z" (VDtype "int8") false false) with Ok g => [g] | Err _ => [] end) = [["t"; "y"; "x"; "label"; "z"]%string] /\
+  (* explicit arrays: float16 comes back as float32, bytes is rejected, an object array of arrays becomes variable-length *)
+  map (fun x => map pv_summary (gv_nprops (mem_view x)))
+      (match dummy (ex_with "h" (VArray DF16 3 [2%nat]) false false) with Ok g => [g] | Err _ => [] end)
+    = [[("t"%string, DI16, false, false); ("y"%string, DF32, false, false); ("x"%string, DF32, false, false);
+        ("label"%string, DStr, false, false); ("h"%string, DF32, false, false)]] /\
+  dummy (ex_with "b" (VArray DBytes 3 []) false false) = Err ValueError /\
+  map (fun x => map pv_summary (gv_nprops (mem_view x)))
+      (match dummy (ex_with "o" (VObjArray [varlen_elem 1; varlen_elem 2; varlen_elem 0]) false false) with Ok g => [g] | Err _ => [] end)
+    = [[("t"%string, DI16, false, false); ("y"%string, DF32, false, false); ("x"%string, DF32, false, false);
+        ("label"%string, DStr, false, false); ("o"%string, DU64, true, false)]] /\
+  (* a str id dtype is rejected *)
+  dummy {| p_id := "str"; p_pos := "float32"; p_time := "int16"; p_directed := true; p_n := 2; p_e := 1; p_enp := ENone; p_eep := ENone;
+           p_t := true; p_z := false; p_y := false; p_x := false; p_varlen := false; p_missing := false |} = Err TypeError /\
   (match mock (ex_params false 3 3 true true) with
    | Ok (st, g) =>
        gv_edges (mem_view g) = [(0, 1); (1, 2); (0, 2)] /\
@@ -203,6 +252,8 @@ Example C20_nonvacuous :
   dummy (ex_params true 257 0 false false) = Err ValueError.
 Proof.
   split.
-  - unfold names_ok. cbn. split; repeat constructor; cbn; intuition discriminate.
-  - vm_compute. repeat split.
+  - split.
+    + unfold req_wf, dict_keys_ok, plain_items, plain_item. cbn. repeat split; repeat constructor; cbn; intuition discriminate.
+    + unfold names_ok. cbn. split; repeat constructor; cbn; intuition discriminate.
+  - vm_compute. repeat split. tauto.
 Qed.
